@@ -12,6 +12,31 @@ from dataclasses import dataclass, field
 from typing import Dict, List, Optional
 
 
+def _split_parallel_assignments(tree):
+    """`a, b = x, y` (two literal tuples of the same length, plain-name targets, no target read on the right) is `a = x; b = y` -
+    at module level too, where the loader's tables of global bindings are built."""
+    for n in ast.walk(tree):
+        for fld in ("body", "orelse", "finalbody"):
+            lst = getattr(n, fld, None)
+            if not (isinstance(lst, list) and lst and isinstance(lst[0], ast.stmt)):
+                continue
+            out, changed = [], False
+            for st in lst:
+                if isinstance(st, ast.Assign) and len(st.targets) == 1 and isinstance(st.targets[0], (ast.Tuple, ast.List)) \
+                        and isinstance(st.value, (ast.Tuple, ast.List)) and len(st.value.elts) == len(st.targets[0].elts) >= 2 \
+                        and all(isinstance(e, ast.Name) for e in st.targets[0].elts) and not any(isinstance(e, ast.Starred) for e in st.value.elts):
+                    tnames = {e.id for e in st.targets[0].elts}
+                    reads = {x.id for v in st.value.elts for x in ast.walk(v) if isinstance(x, ast.Name)}
+                    if not (tnames & reads) and len(tnames) == len(st.targets[0].elts):
+                        for t_, v_ in zip(st.targets[0].elts, st.value.elts):
+                            out.append(ast.fix_missing_locations(ast.copy_location(ast.Assign(targets=[t_], value=v_), st)))
+                        changed = True
+                        continue
+                out.append(st)
+            if changed:
+                lst[:] = out
+
+
 class AnalysisError(Exception):
     """The analyser cannot decide (exit 2).  Never a verdict."""
 
@@ -166,6 +191,7 @@ class Program:
                     tree = ast.parse(src, filename=path)
                 except SyntaxError as e:
                     raise AnalysisError(f"{path} does not parse: {e}")
+                _split_parallel_assignments(tree)
                 mi = ModuleInfo(modname, path, os.path.relpath(path, self.root), src, tree, is_pkg)
                 self.modules[modname] = mi
         for mi in self.modules.values():
